@@ -180,3 +180,15 @@ PROPS["C07"] = {
     "assumptions": ["the simulated peer gives all three simulations the same committed state, tx id, timestamp and creator"],
     "timeout": 3000,
 }
+
+PROPS["C14"] = {
+    "modules": ["Foundation.Proofs.C14"],
+    "facts": True,
+    "level_text": "Machine-checked for every skeleton: if every goroutine has a frame with a deferred recover, no panic below it kills the process (contained_sound), the innermost recover wins, and with a recover per item a batch / task list / swap section returns one entry per item with every non-panicking item unaffected (item_scoped_sound, panic_is_local); without it one panic loses the whole request. Per-run obligations on the skeleton re-extracted from the source: Invoke, batchedTxExecute, ExecuteTask, swap/multiswap Answer and RobotDone defer a recover at the expected position, every `go` statement starts a recovering function, the item loops call exactly those functions, and the library never exits on purpose. Partial by nature: Init has no recover (covered by enumeration only: contained_partial) and runtime fatal errors, stack/memory exhaustion and deadlock are outside any skeleton. Tie: the chaincode runs in a child process; ~2000 (quick) generated invocations over every entry point x argument counts x creators x access-control faults, signed requests with arbitrary arguments, scripted panicking items and malformed swap sections; a death or missing reply is observed, confirmed alone and reported.",
+    "level_note": "Trusted: Lean kernel + 3 axioms; Go's recover semantics; the syntactic extractor (go/parser) finding every `go` statement and deferred recover in the library packages; the shim runs each transaction on its own goroutine without recover. Not covered by a theorem: panics inside Init, runtime fatal errors, OOM, stack overflow, deadlock (a hang is detected by a 40 s timeout in the harness).",
+    "trusted_base": ["panic propagation modelled by Foundation.Panic (unwind to the innermost recovering frame of the same goroutine)", "facts: recoverFns (with positions), goStmts, itemLoops, exitCalls re-extracted each run"],
+    "hypotheses": ["Init is excluded from contained_partial: no recover exists there; no panicking Init input was found by enumeration"],
+    "not_modelled": ["runtime fatal errors (concurrent map writes), out-of-memory, stack overflow, deadlock", "panics in third-party goroutines (otel exporters, gRPC)"],
+    "assumptions": ["a panic escaping Init/Invoke on the calling goroutine is counted as process death (the shim has no recover)"],
+    "timeout": 3000,
+}
